@@ -50,7 +50,7 @@ def fp64(*parts) -> int:
 
 def jsonable(o, depth=0):
     """Best-effort conversion of a witness into JSON (never raises)."""
-    if depth > 12:
+    if depth > 80:
         return repr(o)
     if o is None or isinstance(o, (bool, int, str)):
         return o
